@@ -260,7 +260,7 @@ func TestC14_Prefixes(t *testing.T) {
 	r := ev.New(t, "C14", "TestC14_Prefixes")
 	defer r.Flush()
 	ms := gen.Messages()
-	reps := ev.N(1, 12)
+	reps := ev.N(8, 64)
 	for rep := 0; rep < reps; rep++ {
 		for mi, m := range ms {
 			if mi%ev.NShards() != ev.Shard() {
